@@ -28,9 +28,10 @@ LEVEL = ('decides the discipline around explanations, not their logic: propagato
          'their union (L21). eager reasons select by position only, never by a test on the current '
          'domains (L22); buffered lazy explanations are rebuilt on every call (L23 MUST-PASS); tasks '
          'leave a resource profile only where a mandatory part is undone (L24 WHO-MAY-SHRINK). The '
-         'per-profile explanation cache is initialised from the profile only (L25 CACHE-KEY). Beyond '
-         'these necessary conditions: Logical sufficiency and truth of the stated facts — the heart of'
-         ' the property — are NOT decided')
+         'per-profile explanation cache is initialised from the profile only (L25 CACHE-KEY). Also '
+         'runs the KERNEL BUNDLE (LK<n>): predicate algebra, view rules, implicit reasons and the '
+         'other shared rules. Beyond these necessary conditions: Logical sufficiency and truth of the '
+         'stated facts — the heart of the property — are NOT decided')
 TECHNIQUE = "static analysis: who-may-call / taint with control dependence / dominance over rustc MIR"
 
 ASSIGN_MUTATORS = ("tighten_lower_bound", "tighten_upper_bound", "remove_value_from_domain",
@@ -918,3 +919,5 @@ def run(ctx, led):
     run_rule(led, "L23", "MUST-PASS: buffered lazy explanations are rebuilt on every call", l23, ctx)
     run_rule(led, "L25", "CACHE-KEY: the per-profile explanation cache is initialised from the profile only", l25, ctx)
     run_rule(led, "L24", "WHO-MAY-SHRINK: tasks leave a resource profile only where a mandatory part is undone", l24, ctx)
+    from . import kernel as _kernel
+    _kernel.run_bundle(led, ctx, "L")
